@@ -78,7 +78,7 @@ def declare(spec):
             "forall(Ref('Watcher'), lambda w: implies(w != self, w.processes == old(w.processes) and len(w.processes) == len(old(w.processes)) and "
             "w._status == old(w._status)))",
         ],
-        raises={'RuntimeError': []},
+        raises={'RuntimeError': ["old(self._status) != 'stopped'"]},   # a stopped watcher returns at once
         modifies=['*'], local_types={'processes_to_kill': List(Ref('Process'))},
         ghost_at={'pop': ['mp_pops = mp_pops + 1']},
         loops={
@@ -133,6 +133,20 @@ def declare(spec):
          "self._status != 'stopped', len(self.processes) >= self.numprocesses)"),
         'self.numprocesses >= 0', ('singleton-at-most-one', 'implies(self.singleton, self.numprocesses <= 1)'),
         'excl', 'wf_w(self)', 'found_empty(self)']
+    # ---- do_action (what a `set` request triggers): a stopped watcher is left alone whatever the action code.
+    # Only in the 'lifecycle' profile (C02): its precondition is the lifecycle invariant LIFE, which the option-level
+    # contracts of C11 (Set.execute calls it through a trusted placeholder) do not carry.
+    if getattr(spec, 'profile', None) == 'lifecycle':
+        spec.add(Contract('circus.watcher:Watcher._reload', kind='coroutine', params={'graceful': BOOL, 'sequential': BOOL},
+                          defaults={'graceful': True, 'sequential': False}, trusted=True, modifies=['*'], raises={'*': []},
+                          note='not under contract: restarts / HUPs / respawns the workers -- and STARTS a stopped watcher; '
+                               'do_action must therefore not reach it for a stopped watcher'))
+        spec.add(Contract(
+            'circus.watcher:Watcher.do_action', kind='coroutine', rely='held', params={'num': INT},
+            requires=LIFE,
+            ensures=[('stopped-stays-stopped', "implies(old(self._status) == 'stopped', same_heap())")],
+            raises={'*': ["implies(old(self._status) == 'stopped', same_heap())"]},
+            modifies=['*']))
     LIFE_NP = [r for r in LIFE if r != 'self.numprocesses >= 0']
     spec.add(Contract(
         'circus.watcher:Watcher.set_numprocesses', kind='coroutine', rely='held', params={'np': INT}, ret=INT,
